@@ -331,7 +331,7 @@ impl SimScenario {
                 let rec = ws[3..].contains(&"rec");
                 script.borrow_mut().record = rec;
                 script.borrow_mut().canon = ws[3..].contains(&"canon");
-                if ws[3..].contains(&"py") || ws[3..].contains(&"pyd") || ws[3..].contains(&"pys") {
+                if ws[3..].contains(&"py") || ws[3..].contains(&"pyd") || ws[3..].contains(&"pys") || ws[3..].contains(&"pyr") {
                     self.py_procs.insert(ws[1].to_string());
                     // the Python twin gets the rules known so far (py scenarios list the rules before the processes)
                     let toks: Vec<Vec<String>> = self
@@ -340,7 +340,15 @@ impl SimScenario {
                         .filter(|(q, _)| q == ws[1])
                         .map(|(_, w)| w.clone())
                         .collect();
-                    let class = if ws[3..].contains(&"py") { "ScriptProc" } else if ws[3..].contains(&"pys") { "ScriptProcShared" } else { "ScriptProcDefault" };
+                    let class = if ws[3..].contains(&"py") {
+                        "ScriptProc"
+                    } else if ws[3..].contains(&"pys") {
+                        "ScriptProcShared"
+                    } else if ws[3..].contains(&"pyr") {
+                        "ScriptProcRandom"
+                    } else {
+                        "ScriptProcDefault"
+                    };
                     let f = anysystem::python::PyProcessFactory::new("/verif/harness/py/vscript.py", class);
                     self.sys.add_process(ws[1], Box::new(f.build((rules_json(&toks), rec), 1)), ws[2]);
                 } else {
